@@ -205,6 +205,8 @@ func (c *collectStream) Send(r *openfgav1.StreamedListObjectsResponse) error {
 
 // SrvListUsers returns the users as strings (type:id, type:*, type:id#rel).
 func (e *Env) SrvListUsers(ctx context.Context, s *server.Server, rq gen.Request) ([]string, error) {
+	t0 := time.Now()
+	defer func() { e.Truncated = time.Since(t0) >= time.Duration(e.Sc.Knob("lu_deadline_ms", 3000))*time.Millisecond }()
 	return timed(e, fmt.Sprintf("ListUsers(%s#%s filter=%s)", rq.Obj, rq.Rel, rq.Filter), func() ([]string, error) { return e.srvListUsers(ctx, s, rq) })
 }
 
@@ -321,6 +323,9 @@ func sorted(xs []string) []string {
 // duplicates; when not truncated and no error: returned ⊇ must. limit>0: if the limit applied the
 // response holds exactly limit distinct permitted objects.
 func (e *Env) JudgeListObjects(who string, rq gen.Request, st *rm.State, got []string, err error, faulty bool, limit int, truncatedByDeadline bool) {
+	if rm.IsUserset(rq.User) {
+		st.WithExtra(rm.UserObject(rq.User)) // a userset is a member of itself
+	}
 	must, may, n, approx := st.ListObjectsSuper(rq.Type, rq.Rel, rq.User, rq.Ctx)
 	e.Out.Evals++
 	desc := fmt.Sprintf("%s listobjects(%s#%s@%s ctx=%v ctxt=%v)", who, rq.Type, rq.Rel, rq.User, rq.Ctx, rq.CtxTuples)
@@ -328,6 +333,7 @@ func (e *Env) JudgeListObjects(who string, rq gen.Request, st *rm.State, got []s
 	if rel := e.Sc.Model.Rel(rq.Type, rq.Rel); rel != nil {
 		sig += " rewrite=" + RewriteShape(rel.Rewrite)
 	}
+	sig += " engine=" + []string{"classic", "weighted", "pipeline", "pipeline+weighted"}[e.Sc.Knob("lo_engine", 0)&3] + e.SigExtra
 	if err != nil {
 		ec := Classify(err)
 		switch {
@@ -335,10 +341,13 @@ func (e *Env) JudgeListObjects(who string, rq gen.Request, st *rm.State, got []s
 			simrt.Probe("depth_exceeded")
 		case faulty:
 			simrt.Probe("error_under_fault")
+		case truncatedByDeadline && (ec == ErrDeadline || ec == ErrOther):
+			// C20 allows "a result or an error" at the deadline; C05 only constrains what a response contains
+			simrt.Probe("error_at_deadline")
 		case n > 0 && (ec == ErrCondition || ec == ErrOther || ec == ErrValidation):
 			simrt.Probe("error_with_unevaluable_condition")
 		default:
-			e.Violate("unexpected_error", "err="+errSig(err), "%s: error %v (must=%v)", desc, err, must)
+			e.Violate("unexpected_error:"+errKind(err), "err="+errSig(err), "%s: error %v (must=%v)", desc, err, must)
 		}
 		return
 	}
@@ -364,7 +373,16 @@ func (e *Env) JudgeListObjects(who string, rq gen.Request, st *rm.State, got []s
 			if len(may) > len(must) && len(got) > limit {
 				return
 			}
-			e.Violate("limit_not_exact", sig, "%s: limit %d applies (>= %d permitted) but %d objects returned: %v", desc, limit, len(must), len(got), sorted(got))
+			s2 := sig
+			if len(got) < limit {
+				for _, o := range must {
+					if !gotSet[o] {
+						s2 = sig + e.missingTags(st, rq, o)
+						break
+					}
+				}
+			}
+			e.Violate("limit_not_exact", s2, "%s: limit %d applies (>= %d permitted) but %d objects returned: %v", desc, limit, len(must), len(got), sorted(got))
 		}
 		simrt.Probe("limit_applied")
 		return
@@ -381,13 +399,7 @@ func (e *Env) JudgeListObjects(who string, rq gen.Request, st *rm.State, got []s
 	}
 	for _, o := range must {
 		if !gotSet[o] {
-			s2 := sig
-			if st.DiffSubtrahendReachesCycle(o, rq.Rel) {
-				s2 += " diff_subtrahend_reaches_tuple_cycle"
-			} else if st.ShadowedSibling(rq.User, rq.Ctx) {
-				s2 += " unsatisfied_conditional_tuple_shadows_sibling_of_same_object"
-			}
-			e.Violate("object_missing", s2, "%s: %s holds the relation but was not returned (got %v, expected %v, unevaluable=%d)", desc, o, sorted(got), must, n)
+			e.Violate("object_missing", sig+e.missingTags(st, rq, o), "%s: %s holds the relation but was not returned (got %v, expected %v, unevaluable=%d)", desc, o, sorted(got), must, n)
 			return
 		}
 	}
@@ -396,6 +408,68 @@ func (e *Env) JudgeListObjects(who string, rq gen.Request, st *rm.State, got []s
 	} else {
 		simrt.Probe("lo_empty")
 	}
+}
+
+// missingTags discriminates the known shapes in which an engine loses a permitted object.
+func (e *Env) missingTags(st *rm.State, rq gen.Request, o string) string {
+	switch {
+	case st.DiffSubtrahendReachesCycle(o, rq.Rel):
+		return " diff_subtrahend_reaches_tuple_cycle"
+	case st.ShadowedSibling(rq.User, rq.Ctx):
+		return " unsatisfied_conditional_tuple_shadows_sibling_of_same_object"
+	case DirectUsersetAndComputedSameRelation(e.Sc.Model, rm.ObjType(o), rq.Rel):
+		return " direct_userset_and_computed_of_same_relation"
+	}
+	return ""
+}
+
+// DirectUsersetAndComputedSameRelation: some relation reachable from typ#rel combines, in one
+// rewrite, a direct userset restriction T#x with a computed userset x on the same type T (two
+// different edges into the same node of the weighted graph).
+func DirectUsersetAndComputedSameRelation(m *rm.Model, typ, rel string) bool {
+	type node struct{ t, r string }
+	seen := map[node]bool{}
+	stack := []node{{typ, rel}}
+	for len(stack) > 0 {
+		n := stack[len(stack)-1]
+		stack = stack[:len(stack)-1]
+		if seen[n] {
+			continue
+		}
+		seen[n] = true
+		r := m.Rel(n.t, n.r)
+		if r == nil {
+			continue
+		}
+		computed := map[string]bool{}
+		var walk func(rw *rm.Rewrite)
+		walk = func(rw *rm.Rewrite) {
+			switch rw.Kind {
+			case rm.Computed:
+				computed[rw.Relation] = true
+				stack = append(stack, node{n.t, rw.Relation})
+			case rm.TTU:
+				if ts := m.Rel(n.t, rw.Tupleset); ts != nil {
+					for _, res := range ts.Restrictions {
+						stack = append(stack, node{res.Type, rw.Relation})
+					}
+				}
+			}
+			for _, c := range rw.Children {
+				walk(c)
+			}
+		}
+		walk(r.Rewrite)
+		for _, res := range r.Restrictions {
+			if res.Relation != "" {
+				stack = append(stack, node{res.Type, res.Relation})
+				if res.Type == n.t && computed[res.Relation] {
+					return true
+				}
+			}
+		}
+	}
+	return false
 }
 
 func subjKind(u string) string {
@@ -418,6 +492,7 @@ func (e *Env) JudgeListUsers(who string, rq gen.Request, st *rm.State, got []str
 	if rel := e.Sc.Model.Rel(rm.ObjType(rq.Obj), rq.Rel); rel != nil {
 		sig += " rewrite=" + RewriteShape(rel.Rewrite)
 	}
+	sig += e.SigExtra
 	nUneval := len(st.Unevaluable(rq.Ctx))
 	if err != nil {
 		ec := Classify(err)
@@ -429,7 +504,7 @@ func (e *Env) JudgeListUsers(who string, rq gen.Request, st *rm.State, got []str
 		case nUneval > 0:
 			simrt.Probe("error_with_unevaluable_condition")
 		default:
-			e.Violate("unexpected_error", "err="+errSig(err), "%s: error %v", desc, err)
+			e.Violate("unexpected_error:"+errKind(err), "err="+errSig(err), "%s: error %v", desc, err)
 		}
 		return
 	}
@@ -454,6 +529,12 @@ func (e *Env) JudgeListUsers(who string, rq gen.Request, st *rm.State, got []str
 		}
 	}
 	if faulty || fr != "" {
+		return
+	}
+	if e.Truncated {
+		// the deadline applied (e.g. the breadth limit serialised the expansion until the ListUsers
+		// deadline fired): completeness is not required then
+		simrt.Probe("lu_deadline_truncated")
 		return
 	}
 	gotSet := toSet(got)
